@@ -1339,7 +1339,11 @@ MANIFEST = dict(
     '(thorough), pickle and json final files.',
     note='each path is concrete once the solver chose the pattern (fault '
     'enumeration, not a proof); process-kill disk model (no reordering); one '
-    'interruption per history; parallel simulation outside',
+    'interruption per history; parallel simulation outside'
+    ' Concrete data-representation / scale / boundary probes of the real'
+    ' code (dtype, container and memory-layout variants, argument'
+    ' immutability, magnitudes) accompany the symbolic runs; they are'
+    ' differential runs, not solver verdicts.',
     technique='symbolic execution (z3 Int crash index, Real clock, Bool '
     'skips; re-execution DFS) of the real code with environment stubs + '
     'concrete oracles; counterexample replay on a fresh in-memory disk and on '
